@@ -29,13 +29,14 @@ def rbytes(rng, maxlen=8):
 
 
 def printable_schema(rng):
-    opts = gen.rand_schema(rng, maxdepth=3, p_flags=0.3)
+    opts = gen.rand_schema(rng, maxdepth=3, p_flags=0.3, allow=("int", "float", "bool", "str", "sec", "int", "str", "sec", "ptr"))
 
     def clean(os):
         res = []
         for o in os:
             fl = o.flags & ~(DEPRECATED | gen.DROP)
-            res.append(Opt(o.name, o.ty, fl, o.default, "-", clean(o.subs)))
+            # pointer options keep the callbacks that let a text give them a value; they have no printed form (F35)
+            res.append(Opt(o.name, o.ty, fl, o.default, "pf" if o.ty == "ptr" else "-", clean(o.subs)))
         return res
     return clean(opts)
 
@@ -103,6 +104,10 @@ def _printed_form(dump):
     for l in dump:
         w = l.split()
         if w[0] == "V":
+            if w[3] == "ptr":
+                # a pointer value has no text: it is not carried by print / re-parse, and is not compared
+                out.append(" ".join(w[:4]))
+                continue
             vals = w[7:] if w[3] != "float" else ["f"] * len(w[7:])
             cnt = w[5]
             if w[3] != "sec" and not (int(w[4]) & 2):
